@@ -42,8 +42,12 @@ pub fn count_spaces_after_last_newline(s: &str, i: usize) -> usize {
 /// The number of characters between the last newline before position `i` (or the start of
 /// the text) and position `i`, i.e. the column of that position.
 pub fn count_chars_after_last_newline(s: &str, i: usize) -> usize {
-    let line_start = s[..i].rfind('\n').map_or(0, |pos| pos + 1);
-    s[line_start..i].chars().count()
+    // Every line terminator of Typst counts, as in the lexer's own notion of a column.
+    s[..i]
+        .chars()
+        .rev()
+        .take_while(|&c| !typst_syntax::is_newline(c))
+        .count()
 }
 
 #[cfg(test)]
